@@ -1211,6 +1211,10 @@ def run_check(ctx, plats, chunk, nontrivial, rule, mc_pairs=None):
     # one TLC worker per run: the inputs and tables live in TLC registers (TLCSet) and are shared, not deep-normalised
     # values; parallelism comes from running the chunks in separate TLC processes
     npar = max(1, min(max(2, (3 * vlib.NCPU) // 4), len(chunks)))
+    try:
+        npar = max(1, min(npar, int(os.environ.get("VERIF_TLC_WORKERS", npar))))   # cap on the concurrent TLC processes
+    except ValueError:
+        pass
     workers = 1
 
     def do(ci_idx):
